@@ -38,6 +38,8 @@ def shards(tier):
                 out.append((N, cplx, NW))
     for N in ([16, 300] if q else [16, 33, 256, 257, 300, 700]):
         out.append(('default_nfft', N))
+    for N in (16, 17):
+        out.append(('max_k', N))         # as many tapers as samples, no padding: the weight matrix of 'adapt' is square
     return out
 
 
@@ -48,6 +50,14 @@ def run_shard(desc, R, tier):
         for name, x in A.gen_real(N)[:1] + A.gen_cplx(N)[:1]:
             for meth in ('unity', 'adapt'):
                 eval_point({'x': x, 'NW': 2.5, 'k': None, 'NFFT': 'default', 'method': meth, 'name': name}, R)
+        return
+    if desc[0] == 'max_k':
+        N = desc[1]
+        for name, x in A.gen_real(N)[:1] + A.gen_cplx(N)[:1]:
+            for k in (N, N - 1):
+                for nf in (N, N + 1):
+                    for meth in ('unity', 'eigen', 'adapt'):
+                        eval_point({'x': x, 'NW': 7.0, 'k': k, 'NFFT': nf, 'method': meth, 'name': name}, R)
         return
     N, cplx, NW = desc
     if not NW < N / 2.0 or (NW >= 8 and N < 32):
